@@ -436,6 +436,18 @@ fn judge_handler(case: &Case, l: &mut Local) {
         ok &= m[(1, c)] == (c % 6 + 1) as f64;
     }
     l.check("handler: Jacobian values land in the body's own columns, none for the static body", "", ok, mk, || format!("{:?}", m));
+    // the same buffer filled again (a later iteration of the solver, with other values): the entries are the new
+    // values, nothing of the first fill is left
+    let vals2 = Vector6::new(-0.5, 0.25, 8.0, -3.0, 0.0, 1.5);
+    for i in 0..count {
+        h.set_jacobian(&mut m, 1, i, &vals2);
+        h.set_jacobian(&mut m, 0, i, &vals);
+    }
+    let mut ok2 = true;
+    for c in 0..(count - 1) * 6 {
+        ok2 &= m[(1, c)] == vals2[c % 6] && m[(0, c)] == vals[c % 6];
+    }
+    l.check("handler: filling a Jacobian buffer again overwrites it", "", ok2, mk, || format!("{:?}", m));
 }
 
 
